@@ -188,8 +188,17 @@ def _bucket(err):
 # invariants after every op
 # ---------------------------------------------------------------------------
 
-def check_invariants(ctx, case, agent, ref, opk, probe_seed):
+def check_invariants(ctx, case, agent, ref, opk, probe_seed, status):
+    """``status`` remembers which clauses already fail in this case: a clause is reported by the op after which it FIRST fails (a
+    wrong matrix stays wrong under every later op; reporting each of them would split one root cause over many signatures)."""
     algo = case["algo"]
+
+    def verdict(clause, ok, sig, msg, **details):
+        was_bad = status.get(clause, False)
+        status[clause] = not ok
+        if not ok and not was_bad:
+            ctx.fail(sig, msg, **details)
+
     P = sum(n for _, n in layout(agent))
     shape = tuple(agent.sigma_inv.shape)
     if shape != (P, P):
@@ -203,9 +212,9 @@ def check_invariants(ctx, case, agent, ref, opk, probe_seed):
     if not np.isfinite(m).all():
         ctx.abort(f"C19/inverse/{algo}/matrix_not_finite/after_{opk}", "sigma_inv holds nan/inf", op=opk)
     asym = float(np.abs(m - m.T).max() / max(np.abs(m).max(), 1e-300))
-    ctx.check(asym <= 1e-4, f"C19/symmetric/{algo}/after_{opk}", f"sigma_inv is not symmetric (relative asymmetry {asym:.3g})", op=opk, asym=asym)
+    verdict("symmetric", asym <= 1e-4, f"C19/symmetric/{algo}/after_{opk}", f"sigma_inv is not symmetric (relative asymmetry {asym:.3g})", op=opk, asym=asym)
     ev = float(np.linalg.eigvalsh((m + m.T) / 2).min())
-    ctx.check(ev > 0, f"C19/positive_definite/{algo}/after_{opk}", f"smallest eigenvalue of sigma_inv is {ev:.3g}", op=opk, min_eig=ev)
+    verdict("pd", ev > 0, f"C19/positive_definite/{algo}/after_{opk}", f"smallest eigenvalue of sigma_inv is {ev:.3g}", op=opk, min_eig=ev)
     # every arm's bonus on a fresh context, computed the way the algorithms do (float32)
     try:
         g = torch.tensor(features(agent, context_for(case, probe_seed)), dtype=torch.float32)
@@ -215,14 +224,20 @@ def check_invariants(ctx, case, agent, ref, opk, probe_seed):
     if g is not None and g.shape[1] == P:
         bonus = torch.matmul(torch.matmul(g[:, None, :], agent.sigma_inv.detach().float()), g[:, :, None])[:, 0, 0]
         bad = [i for i, b in enumerate(bonus.tolist()) if not b >= 0]
-        ctx.check(not bad, f"C19/bonus_negative/{algo}/after_{opk}", "exploration bonus g sigma_inv g^T of an arm is negative or nan",
-                  op=opk, arms=bad, bonus=bonus.tolist())
+        verdict("bonus", not bad, f"C19/bonus_negative/{algo}/after_{opk}", "exploration bonus g sigma_inv g^T of an arm is negative or nan",
+                op=opk, arms=bad, bonus=bonus.tolist())
     want = ref.inv_stmt()
     err = rel_err(m, want)
     if err <= REL:
         ctx.label("inverse_err" + _bucket(err))
+        status["inverse"] = "ok"
         return
     err_sw = rel_err(m, ref.inv_swapped())
+    cls = "inverted_regulariser" if err_sw <= REL else "other"
+    if status.get("inverse", "ok") == cls:
+        ctx.label("inverse-clause-still-failing-the-same-way")
+        return
+    status["inverse"] = cls
     if err_sw <= REL:
         ctx.label("inverse_err_vs_swapped" + _bucket(err_sw))
         ctx.fail(f"C19/inverse/{algo}/regulariser_inverted_matrix_starts_at_lambda_I_instead_of_I_over_lambda",
@@ -252,7 +267,8 @@ def run_history(case, ctx):
     lam = float(case["lamb"])
     ref = Ref(lam, sum(n for _, n in layout(agent)))
     bystanders = []  # [(relation, object, matrix snapshot)]
-    check_invariants(ctx, case, agent, ref, "init", case["seed"] + 7)
+    status = {}
+    check_invariants(ctx, case, agent, ref, "init", case["seed"] + 7, status)
     acts, structural_between, pending_structural = 0, 0, False
     kinds_seen = []
     for i, op in enumerate(case["ops"]):
@@ -395,7 +411,7 @@ def run_history(case, ctx):
         if not isinstance(getattr(agent, "sigma_inv", None), torch.Tensor):
             ctx.label("no-sigma_inv")
             return
-        check_invariants(ctx, case, agent, ref, opk, case["seed"] + 11 * (i + 1))
+        check_invariants(ctx, case, agent, ref, opk, case["seed"] + 11 * (i + 1), status)
         for rel, obj, snap in bystanders:
             if tuple(obj.sigma_inv.shape) != tuple(snap.shape) or not torch.equal(obj.sigma_inv, snap):
                 other = "clone" if rel == "parent" else "parent"
@@ -458,8 +474,8 @@ PROPERTY = Property(
           "(algorithm, lambda, arms, dim, head, op kinds in order)"),
     obligations=[
         Obligation("gram_inverse_history", run_history, strategy=case_strategy,
-                   examples={"quick": 40, "thorough": 400}, shards={"quick": 10, "thorough": 16},
-                   shrink_budget={"quick": 80, "thorough": 400}),
+                   examples={"quick": 60, "thorough": 500}, shards={"quick": 10, "thorough": 16},
+                   shrink_budget={"quick": 40, "thorough": 300}),
     ],
     assumptions=["feature of an arm = d f(x_arm) / d(trainable parameters of actor.get_output_dense()) / sqrt(weight.size(0)); size(0) == 1 for every "
                  "value network, so a wrong width factor is unobservable unless it reads another dimension",
